@@ -221,7 +221,7 @@ def run_case(case):
             if not np.isfinite(kappa) or kappa > 1e3:
                 return {"ok": True, "sig": sig, "nontrivial": False, "note": "ambiguous rank of the unit rows"}
             tol = sum(qk * 16.0 * max(m, n) * (kappa**2 + m) * e * m * R for qk, R in zip(q, Rk))
-        if defect > tol:
+        if not (defect <= tol):  # (NaN-proof)
             return report(defect, tol)
         return {"ok": True, "sig": sig, "nontrivial": nontrivial, "note": f"{defect / tol if tol > 0 else 0:.2e}"}
 
@@ -259,7 +259,7 @@ def run_case(case):
         rnd = sum(qk * (s_k * dG * float(np.abs(w).sum()) / math.sqrt(reg) + 8.0 * (m + 2) * e * float(np.abs(w).sum()) * R)
                   for qk, s_k, w, R in zip(q, sk, ws, Rk))
         tol = math.sqrt(reg) * B + rnd
-        if defect > tol:
+        if not (defect <= tol):  # (NaN-proof)
             return report(defect, tol, f"; reg_eps={reg:g}: bound sqrt(reg_eps) sum_k q_k s_k |v0(J_k)| = "
                           f"{math.sqrt(reg) * B:.3e}, rounding {rnd:.3e}")
         worst = max(worst, defect / tol if tol > 0 else 0.0)
